@@ -2,6 +2,7 @@ package rules
 
 import (
 	"go/token"
+	"go/types"
 	"strings"
 
 	"golang.org/x/tools/go/ssa"
@@ -323,7 +324,7 @@ func (c *Ctx) ord2() {
 			}
 			hasParam, hasInc := false, false
 			for _, e := range phi.Edges {
-				if pr, ok := strip(e).(*ssa.Parameter); ok && pr.Type().String() == "uint" {
+				if pr, ok := strip(e).(*ssa.Parameter); ok && isUintType(pr.Type()) {
 					hasParam = true
 					offsetParam = pr
 				}
@@ -367,7 +368,7 @@ func (c *Ctx) ord2() {
 			case pathx.KAssume:
 				if cm, ok := cmpOf(e.Val, e.Truth); ok && isInd(cm.X) && (cm.Op == token.LSS || cm.Op == token.GEQ) {
 					t := cm.Op == token.LSS // the path established seqNo < Y (true) or seqNo >= Y (false)
-					switch roleKey(cm.Y) {
+					switch roleKey(strip(cm.Y)) {
 					case "seq.acceptN":
 						if t {
 							loopCond = 1
@@ -399,15 +400,28 @@ func (c *Ctx) ord2() {
 					iLoad = i
 					// key shape
 					if len(e.Args) == 2 {
-						k := strip(e.Args[1])
+						// (through a helper introduced later: seqNo.packetID(space))
+						binds := pathBindings(p)
+						res := func(v ssa.Value) ssa.Value {
+							v = strip(v)
+							for d := 0; d < 8; d++ {
+								b, ok := binds[v]
+								if !ok || b == v {
+									break
+								}
+								v = strip(b)
+							}
+							return v
+						}
+						k := res(e.Args[1])
 						if or, ok := k.(*ssa.BinOp); ok && or.Op == token.OR {
-							and, _ := strip(or.X).(*ssa.BinOp)
-							sp, _ := strip(or.Y).(*ssa.Parameter)
+							and, _ := res(or.X).(*ssa.BinOp)
+							sp, _ := res(or.Y).(*ssa.Parameter)
 							mask, mok := int64(0), false
 							if and != nil && and.Op == token.AND {
 								mask, mok = intConst(and.Y)
 							}
-							if and != nil && mok && mask == c.constInt("publishIDMask") && isInd(and.X) && sp != nil && sp != offsetParam && sp.Type().String() == "uint" {
+							if and != nil && mok && mask == c.constInt("publishIDMask") && isInd(res(and.X)) && sp != nil && sp != offsetParam && sp.Parent() == rs && isUintType(sp.Type()) {
 								key.pass()
 							} else {
 								key.fail(p, i, "Load key is %s, want seqNo&publishIDMask|space", Expr(k))
@@ -1120,4 +1134,10 @@ func init() {
 			}
 		}
 	})
+}
+
+// isUintType: uint, or a named type over it (a sequence number type introduced later).
+func isUintType(t types.Type) bool {
+	b, ok := t.Underlying().(*types.Basic)
+	return ok && b.Kind() == types.Uint
 }
